@@ -512,6 +512,51 @@ def r2010(ctx, fx, cg):
         ctx.fail_closed(rid, "fewer than 4 sleeps reachable from joined threads found (%d; 7 were counted)" % n)
 
 
+def r2011(ctx, fx, cg):
+    rid = ctx.rule("R20.11", "while it waits for a client, the debugger thread reads nothing from a socket without a limit: the function that accepts connections "
+                   "(the caller of TcpListener::accept) and what it calls on the same thread contain no TcpStream::peek / read / read_exact / read_to_end / "
+                   "read_line, unless the same function sets a read timeout on the stream — a blocking read on a client that says nothing is a wait that neither "
+                   "the shutdown flag nor the shutdown handlers (not registered yet) can end")
+    acc = [g for g in fx.all_fns("mos") if "::tests::" not in g.path and g.blocks and any(lib.pm(lib.callee(t)[0], "TcpListener::accept") for _, t in lib.calls(g))]
+    if not acc:
+        ctx.fail_closed(rid, "no caller of TcpListener::accept found")
+        return
+    READS = ("TcpStream::peek", "::read", "::read_exact", "::read_to_end", "::read_to_string", "::read_line", "::read_until", "::fill_buf")
+    for a in sorted(acc, key=lambda g: g.path):
+        todo = [a]
+        seen = {a.id}
+        bodies = []
+        while todo:
+            g = todo.pop()
+            bodies.append(g)
+            if len(bodies) > 12:
+                break
+            for _, t in lib.calls(g):
+                p, fr = lib.callee(t)
+                h = fx.fns.get(fr.get("rid") or fr.get("id")) if p else None
+                if h is not None and h.id not in seen and h.crate == "mos" and h.kind != "closure" and h.blocks and h.path.startswith("mos::debugger::connection"):
+                    seen.add(h.id)
+                    todo.append(h)
+        k0 = 0
+        for g in bodies:
+            has_timeout = any(lib.norm(lib.callee(t)[0] or "").endswith("set_read_timeout") for _, t in lib.calls(g))
+            for _, t in lib.calls(g):
+                pn = lib.norm(lib.callee(t)[0] or "")
+                full = lib.callee(t)[1].get("full", "") or ""
+                rl = lib.op_local(t["args"][0]) if t.get("args") else None
+                rty = g.locals[rl]["ty"] if rl is not None else ""
+                if not any(pn.endswith(r) for r in READS) or "TcpStream" not in (rty + full + pn):
+                    continue
+                k0 += 1
+                key = "%s|socket-read#%d" % (a.path, k0)
+                ctx.inst(rid, key, sample={"fn": g.path, "call": pn.rsplit("::", 2)[-2] + "::" + pn.rsplit("::", 1)[-1], "line": t.get("line"), "read_timeout_set": has_timeout})
+                if not has_timeout:
+                    ctx.finding(rid, key, "%s, on the debugger thread before a session exists, reads from the socket with `%s` and no read timeout: a client that connects "
+                                "and sends nothing keeps the thread there, `exit` after `shutdown` never ends and the port stays open" % (
+                                    g.path.rsplit("::", 1)[-1], pn.rsplit("::", 1)[-1]), "%s:%s" % (g.file, t.get("line")))
+        ctx.inst(rid, "%s|scan" % a.path, sample={"bodies_on_the_accepting_thread": [g.path for g in bodies], "socket_reads": k0})
+
+
 def run(ctx):
     fx = ctx.facts
     cg = lib.CallGraph(fx)
@@ -522,6 +567,7 @@ def run(ctx):
     r208(ctx, fx, cg)
     r209(ctx, fx)
     r2010(ctx, fx, cg)
+    r2011(ctx, fx, cg)
     r201(ctx, fx, cg)
     r202(ctx, fx, cg)
     r203(ctx, fx, cg)
